@@ -15,7 +15,9 @@ import (
 	"go/token"
 	"go/types"
 	"os"
+	"os/exec"
 	"path/filepath"
+	"runtime"
 	"sort"
 	"strconv"
 	"strings"
@@ -144,6 +146,26 @@ func main() {
 			os.Exit(2)
 		}
 		replace[filepath.Join(*repo, "verifmc", "mc", "sites_gen.go")] = gen
+	}
+	// text/template ranges over channels with reflect's native receive, which the controlled scheduler cannot
+	// see; overlay the standard library file with a copy whose receive goes through a hook set by the harness
+	{
+		groot := runtime.GOROOT()
+		if out, err := exec.Command("go", "env", "GOROOT").Output(); err == nil && strings.TrimSpace(string(out)) != "" {
+			groot = strings.TrimSpace(string(out))
+		}
+		src := filepath.Join(groot, "src", "text", "template", "exec.go")
+		b, err := os.ReadFile(src)
+		if err == nil && bytes.Count(b, []byte("elem, ok := val.Recv()")) == 1 {
+			b = bytes.Replace(b, []byte("elem, ok := val.Recv()"), []byte("elem, ok := VerifRecv(val)"), 1)
+			b = append(b, []byte("\n// VerifRecvHook, when set, replaces the native channel receive of range actions.\nvar VerifRecvHook func(reflect.Value) (reflect.Value, bool)\n\n// VerifRecv receives from a channel value.\nfunc VerifRecv(v reflect.Value) (reflect.Value, bool) {\n\tif VerifRecvHook != nil {\n\t\treturn VerifRecvHook(v)\n\t}\n\treturn v.Recv()\n}\n")...)
+			gen := filepath.Join(*out, "std_text_template_exec.go")
+			if err := os.WriteFile(gen, b, 0o644); err == nil {
+				replace[src] = gen
+			}
+		} else {
+			fmt.Fprintln(os.Stderr, "instr: warning: text/template channel receive not found; template ranges over channels stay native")
+		}
 	}
 	// extra observer files
 	if *extra != "" {
